@@ -215,7 +215,7 @@ int main(int argc, char** argv) {
     int depth = (int)a.num("depth", 3);
     g_alpha.maxViews = (int)a.num("views", 1);
     g_alpha.maxCreated = (int)a.num("created", 1);
-    g_alpha.profile = a.str("alphabet", "full") == "reduced" ? 1 : a.str("alphabet", "full") == "medium" ? 2 : 0;
+    g_alpha.profile = a.str("alphabet", "full") == "reduced" ? 1 : a.str("alphabet", "full") == "medium" ? 2 : a.str("alphabet", "full") == "traversal" ? 3 : 0;
     g_alpha.attrOpsAlways = a.num("attrs-always", 0) != 0;
     xml_init(false, true);
 
@@ -401,7 +401,7 @@ int main(int argc, char** argv) {
     FILE* f = fopen(out.c_str(), "w");
     if (!f) { perror("out"); return 2; }
     fprintf(f, "{\"space\":%s,\"total\":%llu,\"workers\":%d,\"wall_s\":%.3f,\"depth\":%d,\"bounds\":{\"views\":%d,\"depth\":%d,\"levels\":%s,\"known_defects_guarded\":%s},",
-            jstr("explore-v" + std::to_string(g_alpha.maxViews) + "-d" + std::to_string(depth) + (g_alpha.profile == 1 ? "-reduced" : g_alpha.profile == 2 ? "-medium" : "-full")).c_str(), (unsigned long long)totalCases, workers, wall, depth,
+            jstr("explore-v" + std::to_string(g_alpha.maxViews) + "-d" + std::to_string(depth) + (g_alpha.profile == 1 ? "-reduced" : g_alpha.profile == 2 ? "-medium" : g_alpha.profile == 3 ? "-traversal" : "-full")).c_str(), (unsigned long long)totalCases, workers, wall, depth,
             g_alpha.maxViews, depth, levelsJson.c_str(), guardJson.c_str());
     fprintf(f, "\"counters\":{");
     bool first = true;
